@@ -446,6 +446,15 @@ func c04Walk(c *Ctx) *RuleResult {
 	parent := p.LookupField(schedPkg, "invocation", "parent")
 	qc := p.LookupField(schedPkg, "invocation", "queuedChildren")
 	fix := p.LookupFunc(schedPkg, "heapMaybeFix")
+	directFix := func(u *FuncUnit, n ast.Node) bool {
+		call, ok := n.(*ast.CallExpr)
+		if !ok || calleeOf(u.Info(), call) != fix || len(call.Args) < 1 {
+			return false
+		}
+		ue, ok := ast.Unparen(call.Args[0]).(*ast.UnaryExpr)
+		return ok && ue.Op == token.AND && fieldOf(u.Info(), ue.X) == qc
+	}
+	fixers := mustPass(units, directFix)
 	done := map[*types.Func]bool{}
 	for _, w := range FieldWrites(units, ew, false) {
 		u := w.Unit
@@ -466,9 +475,12 @@ func c04Walk(c *Ctx) *RuleResult {
 		// step statement: X = X.parent
 		var step *ast.AssignStmt
 		ast.Inspect(loop.Body, func(n ast.Node) bool {
-			if as, ok := n.(*ast.AssignStmt); ok && len(as.Lhs) == 1 && len(as.Rhs) == 1 && fieldOf(info, as.Rhs[0]) == parent {
-				if id, ok := as.Lhs[0].(*ast.Ident); ok && exprStr(ast.Unparen(as.Rhs[0]).(*ast.SelectorExpr).X) == id.Name {
-					step = as
+			if as, ok := n.(*ast.AssignStmt); ok && len(as.Lhs) == 1 && len(as.Rhs) == 1 && as.Tok == token.ASSIGN {
+				// X = X.parent, possibly through a local that holds X.parent
+				if src := resolveLocalAlias(u, as.Rhs[0]); fieldOf(info, src) == parent {
+					if id, ok := as.Lhs[0].(*ast.Ident); ok && exprStr(ast.Unparen(src).(*ast.SelectorExpr).X) == id.Name {
+						step = as
+					}
 				}
 			}
 			return true
@@ -491,7 +503,7 @@ func c04Walk(c *Ctx) *RuleResult {
 				gs := flattenGuards(GuardsOf(info, loop.Body, x))
 				okExit := false
 				for _, g := range gs {
-					if be, ok := ast.Unparen(g.Cond).(*ast.BinaryExpr); ok && g.Pos && be.Op == token.EQL && ((fieldOf(info, be.X) == parent && isNilIdent(be.Y)) || (fieldOf(info, be.Y) == parent && isNilIdent(be.X))) {
+					if x, nonNil, ok := nilTestOf(g); ok && !nonNil && fieldOf(info, resolveLocalAlias(u, x)) == parent {
 						okExit = true
 					}
 				}
@@ -508,11 +520,13 @@ func c04Walk(c *Ctx) *RuleResult {
 			g := NewFuncCFG(info, u.Decl.Body)
 			isFix := func(n ast.Node) bool {
 				call, ok := n.(*ast.CallExpr)
-				if !ok || calleeOf(info, call) != fix || len(call.Args) < 1 {
+				if !ok {
 					return false
 				}
-				ue, ok := ast.Unparen(call.Args[0]).(*ast.UnaryExpr)
-				return ok && ue.Op == token.AND && fieldOf(info, ue.X) == qc
+				if fn := calleeOf(info, call); fn != nil && fixers[fn] {
+					return true // a helper that re-sorts the parent's heap on all its paths
+				}
+				return directFix(u, n)
 			}
 			if reach, _ := g.ReachableWithout(w.Node, step, isFix); reach {
 				bad = "a path from the change of executingWorkers to the step to the parent skips heapMaybeFix on the parent's queuedChildren heap: the heap order no longer reflects the scores"
@@ -544,7 +558,8 @@ func c04Direct(c *Ctx) *RuleResult {
 				if g.Pos && be.Op == token.EQL && fieldOf(info, be.X) == parent && isNilIdent(be.Y) {
 					rootOK = true
 				}
-				if !g.Pos && be.Op == token.GTR {
+				// canonical form of `!(len(idle) > 0)`
+				if g.Pos && be.Op == token.EQL && exprStr(be.Y) == "0" {
 					if call, ok := ast.Unparen(be.X).(*ast.CallExpr); ok && len(call.Args) == 1 && fieldOf(info, call.Args[0]) == idle {
 						idleOK = true
 					}
@@ -563,8 +578,8 @@ func c04Direct(c *Ctx) *RuleResult {
 
 func init() {
 	register(&PropertySpec{
-		ID:    "C04",
-		Level: "other",
+		ID:          "C04",
+		Level:       "other",
 		Explanation: "Structural necessary conditions of the documented scheduling order: the operation comparator's full decision table equals the lexicographic policy; isPreferred's table over (score order, tie-breaker) and the side that receives the priority penalty; the child heap's tie-break; per-level stickiness cursors are actually consulted; direct operations before children; executing-count changes reach every ancestor and re-sort the parent heap; queueing only when no idle worker exists up to the root. The numeric score and fairness over histories are not decided.",
 		Assumptions: []string{"floating-point score values are opaque: only which operand is penalised and how the two scores are compared is decided"},
 		Rules:       []RuleFunc{c04Less, c04Pref, c04Levels, c04Order, c04Walk, c04Direct, c05Wake, schedPropagationLoops},
